@@ -10,14 +10,32 @@ RULE = ('histories of ZooKeeper-level events produced with the repository\'s own
         'every reschedule()+check_placement_integrity() the whole /placement tree is dumped and compared with '
         'Master.cell (existence, server, identity, expires; nothing for pending/unscheduled; never two servers). '
         'A master restart is inserted in half of the histories. Non-trivial: a history in which an instance moved '
-        'between servers, a server was deleted, or the master restarted.')
+        'between servers, a server was deleted, or the master restarted. Every 5th case runs the REAL Master.run_loop() '
+        '(vf/master/realloop.py): kazoo ChildrenWatch callbacks of Master.watch on a second thread (one at a time, blocked '
+        'until the main loop signals completion), the event queue and the periodic tasks on the main thread, time.sleep = '
+        'the idle point where the harness applies the next operator command (also at the joints of the start-up sequence: '
+        'after load_model / init_schedule / attach_watchers) and, once nothing is queued, undelivered or being delivered '
+        'and the master is up to date - or the callback thread has not come back for 4 idle passes - evaluates the same '
+        'oracle plus "no entry for an instance that is no longer in /scheduled"; a LINE event local to the watch callback '
+        'parks the callback thread between two of its statements until the main loop completed a full pass.')
 ASSUMPTIONS = ['in-memory ZooKeeper fake (vf/zkfake.py) under the real ZkBackend/zkutils/masterapi',
                'children watches are replaced by the driver calling the registered handler for every watched path '
                'whose children changed (also by the master\'s own writes) before each cycle',
-               'virtual clock by rebinding time.time']
+               'virtual clock by rebinding time.time',
+               'real-loop cases: two OS threads; waiting for the other thread is bounded by a 5 s wall-clock guard whose firing makes the case inconclusive (counted), never a violation']
 BUDGET = {'quick': (130, 45.0), 'thorough': (700, 300.0)}
-REQUIRED_REACH = {'*': ['master_restarts', 'moved_between_servers', 'evictions', 'down_expired']}
+REQUIRED_REACH = {'*': ['master_restarts', 'moved_between_servers', 'evictions', 'down_expired', 'real_loop_cases',
+                        'real_loop_callback_parked_between_two_statements', 'real_loop_operator_command_at_start_up_joint',
+                        'real_loop_placed_instances_deleted']}
+
+
+def _real_loop(ctx, idx, rng):
+    if idx % 5 != 4:
+        return False
+    from ..master import realloop
+    realloop.real_loop_case(ctx, idx, rng)
+    return True
 
 
 def run(ctx):
-    mengine.run_histories(ctx, ['C09'])
+    mengine.run_histories(ctx, ['C09'], special=_real_loop)
